@@ -152,7 +152,8 @@ func (o *propOutcome) finish() int {
 	known := readKnown(filepath.Join(verifDir(), "known_findings.txt"))
 	isKnown := func(key string) *knownEntry {
 		for i := range known {
-			if known[i].kind == "known" && known[i].prop == o.prop && known[i].key == key {
+			// keys are written in the file with '_' for ' ' (one token per key)
+			if known[i].kind == "known" && known[i].prop == o.prop && (known[i].key == key || known[i].key == strings.ReplaceAll(key, " ", "_")) {
 				return &known[i]
 			}
 		}
